@@ -2422,6 +2422,25 @@ def write_cache_meta(meta: CacheMeta, manager: BuildManager, meta_file: str) -> 
         manager.log(f"Error writing cache meta file {meta_file}")
 
 
+def invalidate_cache_meta_ex(meta_file: str, manager: BuildManager) -> bool:
+    """Remove the meta_ex record that belongs to the previous version of a meta record.
+
+    Nothing ties a meta_ex record to the meta record it was written with, so a new
+    meta record must never become visible while an older meta_ex is still around
+    (for example, if we are killed before the new meta_ex is written).
+
+    Return False if the old record could not be removed.
+    """
+    try:
+        manager.metastore.remove(get_meta_ex_name(meta_file))
+    except FileNotFoundError:
+        pass
+    except OSError:
+        manager.log(f"Error removing stale meta_ex file for {meta_file}")
+        return False
+    return True
+
+
 def write_cache_meta_ex(meta_file: str, meta_ex: CacheMetaEx, manager: BuildManager) -> None:
     # Write errors cache file
     meta_ex_file = get_meta_ex_name(meta_file)
@@ -4839,6 +4858,8 @@ def process_stale_scc(graph: Graph, ascc: SCC, manager: BuildManager) -> None:
             for dep in graph[id].dependencies
             if state.priorities.get(dep) != PRI_INDIRECT
         ]
+        if not invalidate_cache_meta_ex(meta_file, manager):
+            continue
         write_cache_meta(meta, manager, meta_file)
         indirect = [dep for dep in state.dependencies if state.priorities.get(dep) == PRI_INDIRECT]
         meta_ex = CacheMetaEx(
@@ -4917,7 +4938,8 @@ def process_stale_scc_interface(
             for dep in state.dependencies
             if state.priorities.get(dep) != PRI_INDIRECT
         ]
-        write_cache_meta(meta, manager, meta_file)
+        if invalidate_cache_meta_ex(meta_file, manager):
+            write_cache_meta(meta, manager, meta_file)
         manager.commit_module(meta_file)
         scc_result.append((id, ModuleResult(graph[id].interface_hash.hex(), []), meta_file))
     manager.done_sccs.add(ascc.id)
